@@ -258,7 +258,7 @@ def write_evidence(prop, tier, seed, wall_s, violations, coverage, assumptions):
 def write_replay(prop, failure, replay_body):
     d = digest_of(replay_body)[:8]
     name = f"{prop}-{failure.get('run_seed', 0)}-{failure.get('run_index', 0)}-{d}.json"
-    path = os.path.join(VERIF_DIR, "replays", name)
+    path = os.path.join(os.environ.get("VERIF_REPLAY_DIR") or os.path.join(VERIF_DIR, "replays"), name)
     write_json_atomic(path, replay_body)
     return path
 
